@@ -30,3 +30,11 @@ Print Assumptions payloads_whole_lines.
 Theorem interleaving_preserves_payloads : forall (ws : list (list (list N))) file, Merge ws file -> Permutation file (concat ws).
 Proof. exact (@merge_permutation (list N)). Qed.
 Print Assumptions interleaving_preserves_payloads.
+(* output_dir: every mapping group appends to a file of its own; whatever order the groups complete in (any permutation of
+   the appends), every file of the directory holds the same lines -- the statements are spread over the group files in the
+   same way for every schedule and number of processes *)
+Theorem group_files_independent_of_schedule : forall f r1 r2,
+  clears r1 = clears r2 -> Permutation (writes r1) (writes r2) -> NoDup (map fst (writes r1)) ->
+  forall p, fs_get (cli_run f r1) p = fs_get (cli_run f r2) p.
+Proof. exact group_files_schedule_invariant. Qed.
+Print Assumptions group_files_independent_of_schedule.
